@@ -22,6 +22,13 @@ CONSTANTS Slots,        \* e.g. {1, 2}
           MaxFaults     \* C17: how many calls of a behaviour may suffer an allocation failure
 
 LaWide == {-1, 0, 1, 2, 3}    \* TLC configuration files cannot hold negative literals
+(* extreme setter arguments (C12): INT_MIN, INT_MAX and neighbours *)
+IntMin == -2147483647 - 1
+IntMax == 2147483647
+LaExtreme == {IntMin, -1, 0, 1, 2, 3, IntMax}
+MatchExtreme == {IntMin, -5, 0, 1, 3, 1000000, IntMax}
+DbgExtreme == {IntMin, -1, 0, 1, 7, IntMax}
+FlagExtreme == {IntMin, -1, 0, 1, 2, IntMax}
 
 (* ---------- pools ---------- *)
 R(l, r, an, c, t) == [l |-> l, r |-> r, an |-> an, c |-> c, t |-> t]
